@@ -15,7 +15,6 @@ import (
 	"context"
 	"fmt"
 	"math"
-	"os"
 	"reflect"
 	"regexp"
 	"sort"
@@ -59,9 +58,6 @@ type Case struct {
 	N     int    `json:"n,omitempty"`    // literal argument count of call-like templates
 	Name  string `json:"name,omitempty"` // member name
 	Slots []Slot `json:"slots"`
-	// Subst records that the generator replaced a drawn shape (known finding
-	// excluded by construction); it only feeds a class counter.
-	Subst string `json:"subst,omitempty"`
 }
 
 // ---------------------------------------------------------------- values
@@ -91,6 +87,7 @@ var compounds = []compound{
 	{"sl_t_f64", "slice", fm(`$ = []float64{1.5, 2.5}`), "[]float64", 2},
 	{"sl_t_made", "slice", fm(`$ = make([]int64, 2, 5)`), "[]int64", 2},
 	{"sl_t_2d", "slice", fm(`$ = make([][]int64, 2)`), "[][]int64", 2},
+	{"sl_nil", "slice", fm(`$ = make([][]int64, 1)[0]`), "[]int64", 0},
 	{"mp_empty", "map", fm(`$ = {}`), "map[interface]interface", -1},
 	{"mp_str", "map", fm(`$ = {"k": 1, "a": "b"}`), "map[interface]interface", -1},
 	{"mp_nested", "map", fm(`$ = {"k": [1, 2], "m": {"k": 3}}`), "map[interface]interface", -1},
@@ -98,6 +95,7 @@ var compounds = []compound{
 	{"mp_t_si", "map", fm(`$ = map[string]int64{"k": 1, "z": 26}`), "map[string]int64", -1},
 	{"mp_t_is", "map", fm(`$ = map[int64]string{1: "a"}`), "map[int64]string", -1},
 	{"mp_t_sx", "map", fm(`$ = map[string]interface{"k": [1], "a": 2}`), "map[string]interface", -1},
+	{"mp_nil", "map", fm(`$ = make([]map[string]int64, 1)[0]`), "map[string]int64", -1},
 	{"pt_int0", "ptr", fm(`$ = new(int64)`), "*int64", -1},
 	{"pt_int5", "ptr", fm("$ = new(int64)\n*$ = 5"), "*int64", -1},
 	{"pt_bool", "ptr", fm("$ = new(bool)\n*$ = true"), "*bool", -1},
@@ -142,7 +140,7 @@ func init() {
 	kindsByCat["iterable"] = append(append(append([]string{}, kindsByCat["slice"]...), kindsByCat["map"]...), "ch_closed", "ch_closed_empty")
 	kindsByCat["hasmember"] = append(append(append([]string{}, kindsByCat["map"]...), kindsByCat["struct"]...), "mod", "pt_struct", "mod")
 	kindsByCat["settable"] = append(append([]string{}, kindsByCat["map"]...), "mod", "pt_struct", "pt_struct", "mod")
-	kindsByCat["truthy"] = []string{"true", "false", "int", "float", "str", "nil", "sl_empty", "sl_ints", "mp_empty", "mp_str", "pt_int0", "pt_int5", "pt_bool", "pt_str", "pt_nil"}
+	kindsByCat["truthy"] = []string{"true", "false", "int", "float", "str", "nil", "sl_empty", "sl_ints", "mp_empty", "mp_str", "pt_int0", "pt_int5", "pt_bool", "pt_str", "pt_nil", "sl_nil", "mp_nil"}
 	kindsByCat["key"] = []string{"str", "int", "str", "true", "float"}
 	kindsByCat["sliceish"] = kindsByCat["slice"]
 	// the "any" distribution gives every category a comparable share
@@ -324,15 +322,17 @@ var knownConv = map[string]string{
 	"makeslice": "toInt", "makechan": "toInt", "slice": "toInt", "index": "toInt", "letmapitem": "toInt",
 }
 
-// Known finding F-typed-nil-through-interface: isNil() (vm/vm.go) reports a
-// typed nil pointer as nil but not an interface value holding that pointer, so
-// `x ?? y` keeps the wrapped nil pointer and equal() (in, switch) does not
-// match it with nil. Excluded by construction (the pointer is replaced by
-// new(int64)) and counted; C20_KEEP_KNOWN=1 generates the shape.
+// F-typed-nil-through-interface (repaired in /repo by 96dccda): isNil()
+// reported a typed nil pointer/map/slice as nil but not an interface value
+// holding it, so `x ?? y` kept the wrapped nil and equal() (in, switch) did not
+// match it with nil. The shape is generated and asserted like any other; it
+// keeps its own class counter and, should it regress, its own signature.
+var typedNil = map[string]bool{"pt_nil": true, "sl_nil": true, "mp_nil": true}
+
 var nilPtrPos = map[string][]int{"coalesce": {0}, "in": {0}, "switch": {0, 1}}
 
 func nilPtrShape(c Case, i int) bool {
-	if i >= len(c.Slots) || c.Slots[i].V.K != "pt_nil" || !effIface(c.Slots[i].Chain) {
+	if i >= len(c.Slots) || !typedNil[c.Slots[i].V.K] || !effIface(c.Slots[i].Chain) {
 		return false
 	}
 	for _, p := range nilPtrPos[c.T] {
@@ -342,8 +342,6 @@ func nilPtrShape(c Case, i int) bool {
 	}
 	return false
 }
-
-var keepKnown = os.Getenv("C20_KEEP_KNOWN") != ""
 
 func knownPtrShape(c Case, i int) bool {
 	if nilPtrShape(c, i) {
@@ -466,6 +464,10 @@ func fixSlots(c *Case) {
 		if s[0].V.K == "str" {
 			s[0].V = Val{K: "sl_ints"}
 		}
+		if s[0].V.K == "mp_nil" {
+			// excluded: a store into a nil map creates the map and re-assigns the variable
+			s[0].V = Val{K: "mp_t_si"}
+		}
 		if cp, ok := compoundByName[s[0].V.K]; ok && cp.ln >= 0 {
 			n, isScalar := s[1].V.approxInt()
 			if !isScalar || n == int64(cp.ln) {
@@ -478,6 +480,9 @@ func fixSlots(c *Case) {
 		// container; Go refuses that too) needs a variable
 		if s[0].V.cat() == "struct" {
 			s[0].V = Val{K: "pt_struct"}
+		}
+		if s[0].V.K == "mp_nil" {
+			s[0].V = Val{K: "mp_t_si"}
 		}
 	}
 }
@@ -531,15 +536,6 @@ func genCase(t *rapid.T) Case {
 	if !any {
 		i := rapid.IntRange(0, len(c.Slots)-1).Draw(t, "forced-slot")
 		c.Slots[i].Chain = genChain(t, c.Slots[i].V, true)
-	}
-	if !keepKnown {
-		for i := range c.Slots {
-			if nilPtrShape(c, i) {
-				// excluded by construction: same template and chain, non-nil pointer
-				c.Slots[i].V = Val{K: "pt_int0"}
-				c.Subst = "typed-nil-through-interface"
-			}
-		}
 	}
 	return c
 }
@@ -974,8 +970,10 @@ func oracle(c Case, o *h.Obs) *h.Fail {
 			o.Class("ptr-through-interface|" + c.T)
 		}
 	}
-	if c.Subst != "" {
-		o.Class("by-construction-excluded:" + c.Subst + "|" + c.T)
+	for i := range c.Slots {
+		if nilPtrShape(c, i) {
+			o.Class("typed-nil-through-interface|" + c.T)
+		}
 	}
 
 	b := run(c, baseSrc)
@@ -1077,7 +1075,7 @@ func differingHop(c Case, b outcome, clause string) string {
 	return "multi:" + strings.Join(hs, "+")
 }
 
-const rule = "case = (template, operand value per slot, provenance chain per slot); templates: unary - ! ^, 17 binary operators, x[i], x[i:j], len, in, call, call argument, spread call, member, deref, for-in, switch subject/case, if/else-if, for condition, ternary, make sizes, send, receive (3 forms), close, delete, throw, x[i]=v, x.k=v, *x=v, defer, go, string repeat, typed literal element/key, ??, destructuring let/var, `a, b = m[k]`; values: nil, bools, ints (small or >=2^53), floats, strings, untyped/typed slices and maps, pointers (new(T), &v, typed nil pointer), channels (buffered, never blocking), script functions, struct values, a module; every value is created once in a prelude variable, the baseline uses the variable, the chained program routes it through 1..3 hops of {slice element, map entry [k] and .k, script call, Go id(), parentheses, ternary, ??, struct field typed interface or typed as the value}; excluded by construction: append-at-len and string element store, field store into a struct value, x++/x+=, &x, nil maps, for-in over an open channel, and the known finding typed-nil-through-interface (a typed nil pointer delivered as an interface value to the left of ??, to the left of in, or as switch subject/case: replaced by new(int64) and counted under by-construction-excluded:*; C20_KEEP_KNOWN=1 generates it); non-trivial = at least one slot's LAST hop is slice element, map entry, script call, Go call or interface-typed struct field (no template is a plain assignment); distinct by chained source text"
+const rule = "case = (template, operand value per slot, provenance chain per slot); templates: unary - ! ^, 17 binary operators, x[i], x[i:j], len, in, call, call argument, spread call, member, deref, for-in, switch subject/case, if/else-if, for condition, ternary, make sizes, send, receive (3 forms), close, delete, throw, x[i]=v, x.k=v, *x=v, defer, go, string repeat, typed literal element/key, ??, destructuring let/var, `a, b = m[k]`; values: nil, bools, ints (small or >=2^53), floats, strings, untyped/typed slices and maps incl. a nil typed slice and a nil typed map, pointers (new(T), &v, typed nil pointer), channels (buffered, never blocking), script functions, struct values, a module; every value is created once in a prelude variable, the baseline uses the variable, the chained program routes it through 1..3 hops of {slice element, map entry [k] and .k, script call, Go id(), parentheses, ternary, ??, struct field typed interface or typed as the value}; excluded by construction: append-at-len and string element store, element/member store into a nil map, field store into a struct value, x++/x+=, &x, nil maps, for-in over an open channel; non-trivial = at least one slot's LAST hop is slice element, map entry, script call, Go call or interface-typed struct field (no template is a plain assignment); distinct by chained source text"
 
 func TestC20(t *testing.T) {
 	c := h.New(t, "C20")
